@@ -26,13 +26,14 @@ def seeded():
     n = c = 0
     for d in sorted((ROOT / "seeded").iterdir()):
         m = json.loads((d / "meta.json").read_text())
-        r = m.get("check_results", {}).get(m["property"], {})
+        by = [p for p in m.get("caught_by", []) if p != m["property"]]
+        r = m.get("check_results", {}).get(m["property"] if not by or m["property"] in m.get("caught_by", []) else by[0], {})
         how = r.get("signature") or ""
         if r.get("violation") and "no-failing-input-found" in r["violation"]:
             how = "no-failing-input-found [correspondence only]"
         n += 1
         c += bool(m.get("caught"))
-        rows.append(f"| {m['id']} | {esc(m.get('summary', ''))[:170]} | {esc(m.get('needs_to_manifest', ''))[:130]} | {'yes' if m.get('caught') else ('NO' if 'caught' in m else 'not run')} | {esc(how)} |")
+        rows.append(f"| {m['id']} | {esc(m.get('summary', ''))[:170]} | {esc(m.get('needs_to_manifest', ''))[:130]} | {('yes' + (' (by the check of ' + ', '.join(by) + ')' if by and m['property'] not in m.get('caught_by', []) else '')) if m.get('caught') else ('NO' if 'caught' in m else 'not run')} | {esc(how)} |")
     return f"{n} changes, {c} caught by the property's quick check.\n\n" + "\n".join(rows)
 
 
